@@ -134,7 +134,8 @@ class Path:
     def feasible(self, t):
         self.solver.push()
         self.solver.add(t)
-        r = self.solver.check()
+        from . import verify as _v
+        r = _v.timed_check(self.solver, 400)
         self.solver.pop()
         return r != z3.unsat
 
